@@ -7,21 +7,23 @@ Core Lean only.
 
 An interleaving transition system at critical-section granularity.  Threads:
 
-* request threads (`Execute` → `enqueue`): `arrive` (NewRequest + the slot test of
-  `enqueueIfSlotAvailable`), `register` (`RequestWatcher.AddRequest`: count++ and both maps),
+* request threads (`Execute` → `enqueue`): `arrive` (NewRequest + `RequestWatcher.ReserveSlot`: the
+  size test and the increment of the counter are ONE atomic step), `register`
+  (`RequestWatcher.AddRequest`: both maps),
   `push` (`queue.Enqueue`), park on the WaitGroup, `wake` (Wait returns, result read, Execute
   returns), then the asynchronous `removeRequest`: `unwatch` (`RemoveFromWatchList`) and
   `heapRemove` (`queue.Remove`);
 * the processing loop (`process`/`tryProcessQueueItems`/`processQueueItem`): `loopFire` (its 100 ms
   timer), then `loopStep`s: pop, GetRequest+StartProcessing, quota `Inc;Allowed(;Dec)`, on refusal
-  `Enqueue` again — WITH A FRESH TIMESTAMP, as `memoryQueue.Enqueue` stamps every push — then
-  `StopProcessing` and end of pass; on success `SetProcessedSuccess` (Done) and next pop;
+  `Enqueue` again — `memoryQueue.Enqueue` reuses the timestamp of the item's first enqueue
+  (`firstEnqueuedAt`, dropped by `Remove`) — then `StopProcessing` and end of pass; on success
+  `SetProcessedSuccess` (Done) and next pop;
 * the TTL watcher (`manageTTLs`/`notifyExpiredRequests`): `wScan` (snapshot of expired ids),
   `wStep k` (k-th id of the snapshot — Go map order is arbitrary: GetRequest+StartProcessing, then
   `SetProcessedTimeout` (Done));
 * shutdown: `cancel` (context cancelled); the next `loopFire` starts `drainQueue` →
-  `RequestWatcher.StopAll`: `SetProcessedTimeout` on EVERY entry of the map, without
-  `StartProcessing`.
+  `RequestWatcher.StopAll`: for every entry of the map `StartProcessing` and, if it succeeds,
+  `SetProcessedTimeout` (one step: nobody else touches a request in state `processing`).
 
 Abstractions (all commute with the other threads' steps): the three critical sections of
 `AddRequest`/`RemoveFromWatchList` (counter, request map, expiry map) are one step each; the quota is
@@ -48,7 +50,7 @@ deriving DecidableEq, Repr
 /-- Program counter of a request thread. -/
 inductive Pc
   | absent                     -- id not used yet
-  | checked                    -- slot test passed, before AddRequest
+  | checked                    -- slot reserved (ReserveSlot), before AddRequest
   | rejected                   -- slot test failed: Execute returned `blocked`
   | registered                 -- AddRequest done, before queue.Enqueue
   | parked                     -- pushed; waiting on the WaitGroup
@@ -65,8 +67,11 @@ structure Req where
   res     : RResult := .pending
   wg      : Int := 1           -- WaitGroup counter
   inMap   : Bool := false      -- in the watcher's maps
+  firstAt : Option Nat := none -- memoryQueue.firstEnqueuedAt[id]
   dones   : Nat := 0           -- ghost: number of Done calls
   qok     : Bool := false      -- ghost: the last quota attempt for it succeeded
+  pushed  : Bool := false      -- ghost: has been enqueued at least once
+  pushTs  : Nat := 0           -- ghost: timestamp of its first enqueue (its place in arrival order)
 deriving Repr
 
 structure HItem where
@@ -116,7 +121,7 @@ deriving DecidableEq, Repr
 
 structure St where
   now       : Nat
-  count     : Int := 0          -- RequestWatcher.requestCount
+  count     : Int := 0          -- RequestWatcher.requestCount (reserved + registered slots)
   n         : Nat := 0          -- ids 0..n-1 are in use
   reqs      : Nat → Req := fun _ => {}
   heap      : List HItem := []
@@ -126,6 +131,7 @@ structure St where
   q         : Quota := {}
   cancelled : Bool := false
   panicked  : Bool := false
+  drainSet  : List Nat := []    -- ghost: the entries of the map when StopAll started
   trace     : List Ev := []     -- most recent first
 
 def St.init (t0 : Nat) : St := { now := t0 }
@@ -134,6 +140,14 @@ def St.upd (s : St) (i : Nat) (f : Req → Req) : St :=
   { s with reqs := fun j => if j = i then f (s.reqs j) else s.reqs j }
 
 def St.emit (s : St) (e : Ev) : St := { s with trace := e :: s.trace }
+
+/-- `memoryQueue.Enqueue`: the item keeps the timestamp of its first enqueue (until `Remove`). -/
+def St.enq (s : St) (i : Nat) : St :=
+  let ts := match (s.reqs i).firstAt with
+    | some t => t
+    | none => s.seq
+  { (s.upd i fun r => { r with firstAt := some ts, pushed := true, pushTs := if r.pushed then r.pushTs else ts }) with
+      heap := ⟨i, (s.reqs i).prio, ts⟩ :: s.heap, seq := s.seq + 1 }
 
 /-- `Inc;Allowed(;Dec)` of a fixed-window quota at instant `now` (ms).
 `AtomicIncWindow`: window start defaults to now; restart when `now - start ≥ window`; refuse when
@@ -203,16 +217,18 @@ def stepLoop (cfg : Cfg) (s : St) (k : Nat) : St :=
     let (q', ok) := quotaTry cfg s.q s.now
     (({ s with q := q', loop := if ok then .granted i else .refused i }).upd i
         fun r => { r with qok := ok }).emit (.qtry i ok)
-  | .refused i =>
-    ({ s with heap := ⟨i, (s.reqs i).prio, s.seq⟩ :: s.heap, seq := s.seq + 1,
-              loop := .repushed i }).emit (.repush i)
+  | .refused i => ({ (s.enq i) with loop := .repushed i }).emit (.repush i)
   | .repushed i =>
     { (s.upd i fun r => { r with st := .enqueued }) with loop := .idle }
   | .granted i => { (s.signal i .success) with loop := .running }
   | .draining todo =>
     match todo[k]? with
     | none => if todo.isEmpty then { s with loop := .exited } else s
-    | some i => { (s.signal i .timeout) with loop := .draining (todo.eraseIdx k) }
+    | some i =>
+      -- an entry of the map (always `inMap`: the read lock is held); StartProcessing arbitrates
+      if (s.reqs i).inMap = true ∧ (s.reqs i).st = .enqueued then
+        { (s.signal i .timeout) with loop := .draining (todo.eraseIdx k) }
+      else { s with loop := .draining (todo.eraseIdx k) }
 
 def stepWatcher (s : St) (k : Nat) : St :=
   match s.watcher with
@@ -229,7 +245,8 @@ def stepWatcher (s : St) (k : Nat) : St :=
 def stepArrive (cfg : Cfg) (s : St) (prio : Nat) : St :=
   let i := s.n
   if s.count < cfg.size then
-    ({ s with n := s.n + 1, reqs := fun j => if j = i then { prio := prio, arrival := s.now, pc := .checked } else s.reqs j }).emit
+    ({ s with n := s.n + 1, count := s.count + 1,
+              reqs := fun j => if j = i then { prio := prio, arrival := s.now, pc := .checked } else s.reqs j }).emit
       (.checked i)
   else
     ({ s with n := s.n + 1, reqs := fun j => if j = i then { prio := prio, arrival := s.now, pc := .rejected } else s.reqs j }).emit
@@ -237,13 +254,12 @@ def stepArrive (cfg : Cfg) (s : St) (prio : Nat) : St :=
 
 def stepRegister (s : St) (i : Nat) : St :=
   if (s.reqs i).pc = .checked ∧ isDraining s.loop = false then
-    { (s.upd i fun r => { r with pc := .registered, inMap := true }) with count := s.count + 1 }
+    s.upd i fun r => { r with pc := .registered, inMap := true }
   else s
 
 def stepPush (s : St) (i : Nat) : St :=
   if (s.reqs i).pc = .registered then
-    ({ (s.upd i fun r => { r with pc := .parked }) with
-        heap := ⟨i, (s.reqs i).prio, s.seq⟩ :: s.heap, seq := s.seq + 1 }).emit
+    ((s.enq i).upd i fun r => { r with pc := .parked }).emit
       (.queued i (s.reqs i).prio (s.reqs i).arrival)
   else s
 
@@ -264,12 +280,13 @@ def stepUnwatch (s : St) (i : Nat) : St :=
 
 def stepHeapRemove (s : St) (i : Nat) : St :=
   if (s.reqs i).pc = .unwatched then
-    { (s.upd i fun r => { r with pc := .removed }) with heap := s.heap.eraseP fun h => h.id == i }
+    { (s.upd i fun r => { r with pc := .removed, firstAt := none }) with heap := s.heap.eraseP fun h => h.id == i }
   else s
 
 def stepLoopFire (s : St) : St :=
   if s.loop = .idle then
-    if s.cancelled then { s with loop := .draining (idsWhere s fun r => r.inMap) }
+    if s.cancelled then
+      { s with loop := .draining (idsWhere s fun r => r.inMap), drainSet := idsWhere s fun r => r.inMap }
     else { s with loop := .running }
   else s
 
